@@ -219,8 +219,9 @@ def check(run):
     run.trust("MPI stand-in /verif/stubs/mpi4py (single rank for observed calls)", "sha256")
     from vlib import deductive as D
     from pyvc import frames
-    sfailed = D.structural_generic(run, ["generation/generator.py", "generation/simplifier.py", "generation/duplicate_checker.py", "fitting/test_all.py",
-                                         "fitting/test_all_Fisher.py", "fitting/match.py", "fitting/combine_DL.py"], frames.obligations, "pyvc.frames (AST analysis)",
+    sfailed = D.structural_generic(run, ["generation/generator.py", "generation/simplifier.py", "generation/duplicate_checker.py", "generation/utils.py", "fitting/test_all.py",
+                                         "fitting/test_all_Fisher.py", "fitting/match.py", "fitting/combine_DL.py", "fitting/likelihood.py", "fitting/fit_single.py"],
+                                   frames.obligations, "pyvc.frames (AST analysis)",
                                    "frame obligations: append-mode files reset earlier in the call, shuffles preceded by their own seed, symbol-table writes canonical, truncating writes")
     # F8: the stage functions that parse with the shared symbol table register the parameter symbols themselves (generator.string_to_expr, the string API of C18, does not:
     #     it is not one of the stages C16 speaks about -- DESIGN section 2, C16, observation)
